@@ -31,12 +31,25 @@ TEXT = {
             "built into the real DArray<false/true> by every constructor and all select/iterator answers are compared with a Vec<bool> "
             "reference.", "§4 C07",
             "bounded-exhaustive enumeration of group-shape histories x configurations on the real code vs. reference model"),
+    "C08": ("model_checking", "Explicit-state model checking of the real BitVectorMut: every history up to the stated depth from 30 start "
+            "states is executed on the implementation next to a Vec<bool>, every reachable state (hidden counters and padding included "
+            "in the state key) is observed completely, counterexamples are replayed before being reported.", "§4 C08",
+            "explicit-state BFS (stateright) over operation histories of the real code, lock-step reference model"),
+    "C12": ("model_checking", "All call histories over {next, next_back, len} up to length n+3 on every tree iterator, and all forward "
+            "histories incl. calls after exhaustion on the vector iterators, re-executed on the real iterators against a VecDeque.", "§4 C12",
+            "exhaustive enumeration of iterator call histories on the real code (history = state), lock-step reference"),
+    "C13": ("model_checking", "Explicit-state model checking of the real QVectorBuilder over push/extend histories with all integer types, plus "
+            "bounded-exhaustive collect for every integer type.", "§4 C13",
+            "explicit-state BFS (stateright) over builder histories of the real code + bounded-exhaustive inputs"),
 }
 
 NOTE = {
     "C01": "Trusted: reference model (Vec + occurrence lists), rustc/std, the child-process runner. Bounds: see evidence.coverage.bounds; lengths near 2^43 not reachable.",
     "C02": "Trusted: reference model, the hook's permutation code (add-only, off by default), minimum_redundancy (used only to label code shapes). Known finding KF2 (codes > 32 bits).",
     "C03": "Trusted: reference model, hook permutation code. Known finding KF2 (binary codes > 32 bits).",
+    "C08": "Trusted: Vec<bool> reference, stateright's BFS. Known finding KF1 (BitVectorMut::get_bits off by one, pinned by the repository's own test). Depth bounds in the evidence.",
+    "C12": "Trusted: VecDeque reference. Double-ended histories are exhaustive for sequences up to length 4; longer inputs only for the forward iterators.",
+    "C13": "Trusted: Vec<u8> reference (v mod 4 in two's complement), stateright's BFS.",
     "C05": "Trusted: reference model (Vec<u8>), runner. Lengths near 2^43 (44-bit counters) not reachable.",
     "C06": "Trusted: reference model (Vec<bool>), runner.",
     "C07": "Trusted: reference model (Vec<bool>), runner. Position-list constructors are compared on the vector that ends at the last one.",
@@ -78,6 +91,8 @@ def main():
         "engines": [
             {"name": "mc_trees", "path": "/verif/mc/src/bin/mc_trees.rs", "serves_properties": ["C01", "C02", "C03"],
              "kind_free_text": "E1 bounded-exhaustive input-space explorer + E3 tie-order choice explorer for the wavelet trees"},
+            {"name": "mc_hist", "path": "/verif/mc/src/bin/mc_hist.rs", "serves_properties": ["C08", "C12", "C13"],
+             "kind_free_text": "E2 history explorers: stateright BFS over BitVectorMut / QVectorBuilder histories, exhaustive iterator call histories"},
             {"name": "mc_vectors", "path": "/verif/mc/src/bin/mc_vectors.rs", "serves_properties": ["C05", "C06", "C07"],
              "kind_free_text": "E1 bounded-exhaustive input-space explorer for RSQVector, RSNarrow/RSWide and DArray"},
         ],
